@@ -1,6 +1,8 @@
 import ParryModel.Field
 import ParryModel.IsoLemmas
 import ParryModel.C01.ModelGlue
+import ParryModel.C01.ModelGlue2
+import ParryModel.C01.TheoremsGjk
 import ParryModel.C03.Theorems
 import ParryModel.C01.Lemmas
 set_option linter.unusedVariables false
@@ -193,5 +195,272 @@ theorem closestPointsWorld3_spec (A B : V3 K → Prop) (pos1 pos2 : Iso3 K) (g1 
     simp only [Option.map_some, Option.some.injEq] at hw
     subst hw
     exact transformBy3_spec sq A B pos1 pos2 m r h1 h2 (hd r hc)
+
+
+/-! ## the GJK route: `Disjoint` soundness at the entry-point level -/
+
+/-- the obstacle `A ⊖ pos12·B` of a placed pair: all differences `x − pos12·y` -/
+def Obstacle3 (A B : V3 K → Prop) (pos12 : Iso3 K) (c : V3 K) : Prop :=
+  letI := fieldNum K sq
+  ∃ x y, A x ∧ B y ∧ c = x.sub (pos12.act y)
+
+/-- **`closest_points_support_map_support_map` answers `Disjoint` only when the shapes are farther apart than `prediction`**
+(entry-point level; the GJK route of the dispatcher): if `CSOPoint::from_shapes` honours the support contract for the obstacle
+`A ⊖ pos12·B` and `prediction ≥ 0`, a `Disjoint` answer satisfies the local statement of the property — every pair `(x, y)` has
+gap `> prediction` — unless GJK left through its documented non-convergence fallback `NoIntersection(x_axis)` (`niter == 100`),
+which is indistinguishable from a genuine exit with that direction. -/
+theorem closestPointsSmSm3_disjoint_sound (hs : LawfulSqrt sq) (A B : V3 K → Prop) (fs : V3 K → CSO3 K) (pos12 : Iso3 K) (m : K)
+    (hm : 0 ≤ m) :
+    letI := fieldNum K sq
+    SupportsCSO3 (Obstacle3 sq A B pos12) fs →
+    closestPointsSmSm3 fs pos12 m = some .disjoint →
+    LocalSpec sq A B pos12 m .disjoint ∨
+      (gjkClosestPoints3 fs (some m) true (gjkStart3 fs pos12.t none Vs3.new)).1 = .noIntersection ⟨1, 0, 0⟩ := by
+  letI := fieldNum K sq
+  intro hsup hr
+  unfold closestPointsSmSm3 closestPointsSmSmWithParams3 at hr
+  generalize hg : gjkClosestPoints3 fs (some m) true (gjkStart3 fs pos12.t none Vs3.new) = g at hr ⊢
+  obtain ⟨r, s'⟩ := g
+  dsimp only at hr ⊢
+  cases r with
+  | intersection => simp at hr
+  | closest p1 p2 d => simp at hr
+  | proximity d => simp at hr
+  | panic => simp at hr
+  | noIntersection d =>
+    rcases gjkClosestPoints3_cases fs (some m) true _ s' _ hg with h | h | h | ⟨s0, p0, o0, m0, hb⟩
+    · cases h
+    · cases h
+    · exact Or.inr h
+    · left
+      intro x y hx hy
+      have := gjkBody3_noIntersection_sound sq hs _ fs hsup m hm true s0 s' p0 o0 d m0 hb (x.sub (pos12.act y)) ⟨x, y, hx, hy, rfl⟩
+      unfold gapL
+      simp only [V3.sub, V3.normSq, V3.dot] at this ⊢
+      linarith
+
+/-! ### 2-D twins -/
+
+def gapL2 (pos12 : Iso2 K) (x y : V2 K) : K :=
+  letI := fieldNum K sq
+  ((pos12.act y).sub x).normSq
+def gapW2 (pos1 pos2 : Iso2 K) (x y : V2 K) : K :=
+  letI := fieldNum K sq
+  ((pos2.act y).sub (pos1.act x)).normSq
+
+/-- the property for an answer in local frames (2-D) -/
+def LocalSpec2 (A B : V2 K → Prop) (pos12 : Iso2 K) (m : K) : CP (V2 K) → Prop
+  | .intersecting => ∃ x y, A x ∧ B y ∧ gapL2 sq pos12 x y = 0
+  | .within p1 p2 => A p1 ∧ B p2 ∧ (∀ x y, A x → B y → gapL2 sq pos12 p1 p2 ≤ gapL2 sq pos12 x y) ∧ gapL2 sq pos12 p1 p2 ≤ m * m
+  | .disjoint => ∀ x y, A x → B y → m * m < gapL2 sq pos12 x y
+
+/-- the property for the answer of the 2-D world-space entry point -/
+def WorldSpec2 (A B : V2 K → Prop) (pos1 pos2 : Iso2 K) (m : K) : CP (V2 K) → Prop
+  | .intersecting => ∃ x y, A x ∧ B y ∧ gapW2 sq pos1 pos2 x y = 0
+  | .within w1 w2 =>
+      letI := fieldNum K sq
+      ∃ p1 p2, A p1 ∧ B p2 ∧ w1 = pos1.act p1 ∧ w2 = pos2.act p2 ∧
+        (∀ x y, A x → B y → (w2.sub w1).normSq ≤ gapW2 sq pos1 pos2 x y) ∧ (w2.sub w1).normSq ≤ m * m
+  | .disjoint => ∀ x y, A x → B y → m * m < gapW2 sq pos1 pos2 x y
+
+private theorem act_dist2 (m : Iso2 K) (p q : V2 K) (h : C03.Unit2 m) :
+    letI := fieldNum K sq
+    ((m.act p).sub (m.act q)).normSq = (p.sub q).normSq := by
+  letI := fieldNum K sq
+  unfold C03.Unit2 at h
+  simp only [Iso2.act, Iso2.rot, V2.add, V2.sub, V2.normSq, V2.dot]
+  linear_combination ((p.x - q.x) * (p.x - q.x) + (p.y - q.y) * (p.y - q.y)) * h
+
+/-- 2-D: the world gap of a pair equals its gap in the frame of shape 1 -/
+theorem gapW2_eq_gapL2 (pos1 pos2 : Iso2 K) (x y : V2 K) (h1 : C03.Unit2 pos1) :
+    letI := fieldNum K sq
+    gapW2 sq pos1 pos2 x y = gapL2 sq (pos1.invMul pos2) x y := by
+  letI := fieldNum K sq
+  unfold gapW2 gapL2
+  have e : pos1.act ((pos1.invMul pos2).act y) = pos2.act y := by
+    rw [(C03.iso2_invMul_eq_inverse_mul sq pos1 pos2 y).1, (C03.iso2_mul_act sq pos1.inverse pos2 y).1]
+    exact (C03.iso2_inverse_act sq pos1 (pos2.act y) h1).2.1
+  rw [← e]
+  exact act_dist2 sq pos1 _ _ h1
+
+/-- **2-D `transform_by` carries the local statement to the world statement** -/
+theorem transformBy2_spec (A B : V2 K → Prop) (pos1 pos2 : Iso2 K) (m : K) (r : CP (V2 K)) (h1 : C03.Unit2 pos1) :
+    letI := fieldNum K sq
+    LocalSpec2 sq A B (pos1.invMul pos2) m r → WorldSpec2 sq A B pos1 pos2 m (transformBy2 r pos1 pos2) := by
+  letI := fieldNum K sq
+  intro h
+  cases r with
+  | intersecting =>
+    obtain ⟨x, y, hx, hy, e⟩ := h
+    exact ⟨x, y, hx, hy, by rw [gapW2_eq_gapL2 sq pos1 pos2 x y h1]; exact e⟩
+  | disjoint =>
+    intro x y hx hy
+    rw [gapW2_eq_gapL2 sq pos1 pos2 x y h1]; exact h x y hx hy
+  | within p1 p2 =>
+    obtain ⟨hp1, hp2, hmin, hm⟩ := h
+    have e : ((pos2.act p2).sub (pos1.act p1)).normSq = gapL2 sq (pos1.invMul pos2) p1 p2 := gapW2_eq_gapL2 sq pos1 pos2 p1 p2 h1
+    refine ⟨p1, p2, hp1, hp2, rfl, rfl, ?_, ?_⟩
+    · intro x y hx hy
+      rw [gapW2_eq_gapL2 sq pos1 pos2 x y h1, e]; exact hmin x y hx hy
+    · rw [e]; exact hm
+
+/-- **2-D `query::closest_points` (world form) inherits the property from the dispatcher's answer** -/
+theorem closestPointsWorld2_spec (A B : V2 K → Prop) (pos1 pos2 : Iso2 K) (g1 g2 : DSh2 K) (m : K) (w : CP (V2 K))
+    (h1 : C03.Unit2 pos1) :
+    letI := fieldNum K sq
+    letI := fieldBits K
+    (∀ r, dispatchCP2 (pos1.invMul pos2) g1 g2 m = some r → LocalSpec2 sq A B (pos1.invMul pos2) m r) →
+    closestPointsWorld2 pos1 g1 pos2 g2 m = some w → WorldSpec2 sq A B pos1 pos2 m w := by
+  letI := fieldNum K sq
+  letI := fieldBits K
+  intro hd hw
+  unfold closestPointsWorld2 at hw
+  cases hc : dispatchCP2 (pos1.invMul pos2) g1 g2 m with
+  | none => rw [hc] at hw; simp at hw
+  | some r =>
+    rw [hc] at hw
+    simp only [Option.map_some, Option.some.injEq] at hw
+    subst hw
+    exact transformBy2_spec sq A B pos1 pos2 m r h1 (hd r hc)
+
+/-- 2-D: the gap seen from the other frame -/
+theorem gapL2_inverse (pos12 : Iso2 K) (x y : V2 K) (h : C03.Unit2 pos12) :
+    letI := fieldNum K sq
+    gapL2 sq pos12.inverse y x = gapL2 sq pos12 x y := by
+  letI := fieldNum K sq
+  unfold gapL2
+  have e := act_dist2 sq pos12 (pos12.inverse.act x) y h
+  rw [(C03.iso2_inverse_act sq pos12 x h).2.1] at e
+  rw [← e]
+  simp only [V2.normSq, V2.dot, V2.sub]
+  ring
+
+/-- **2-D mirrored wrappers**: the flipped answer of the kernel called with `pos12⁻¹` and swapped roles -/
+theorem flipped_spec2 (A B : V2 K → Prop) (pos12 : Iso2 K) (m : K) (r : CP (V2 K)) (h : C03.Unit2 pos12) :
+    letI := fieldNum K sq
+    LocalSpec2 sq B A pos12.inverse m r → LocalSpec2 sq A B pos12 m (flipped r) := by
+  letI := fieldNum K sq
+  intro hr
+  cases r with
+  | intersecting =>
+    obtain ⟨y, x, hy, hx, e⟩ := hr
+    exact ⟨x, y, hx, hy, by rw [← gapL2_inverse sq pos12 x y h]; exact e⟩
+  | disjoint =>
+    intro x y hx hy
+    rw [← gapL2_inverse sq pos12 x y h]; exact hr y x hy hx
+  | within p2 p1 =>
+    obtain ⟨hp2, hp1, hmin, hm⟩ := hr
+    refine ⟨hp1, hp2, ?_, ?_⟩
+    · intro x y hx hy
+      rw [← gapL2_inverse sq pos12 x y h, ← gapL2_inverse sq pos12 p1 p2 h]; exact hmin y x hy hx
+    · rw [← gapL2_inverse sq pos12 p1 p2 h]; exact hm
+
+def Obstacle2 (A B : V2 K → Prop) (pos12 : Iso2 K) (c : V2 K) : Prop :=
+  letI := fieldNum K sq
+  ∃ x y, A x ∧ B y ∧ c = x.sub (pos12.act y)
+
+/-- **2-D `closest_points_support_map_support_map` answers `Disjoint` only when the shapes are farther apart than `prediction`**
+(or GJK hit its iteration cap) -/
+theorem closestPointsSmSm2_disjoint_sound (hs : LawfulSqrt sq) (A B : V2 K → Prop) (fs : V2 K → CSO2 K) (pos12 : Iso2 K) (m : K)
+    (hm : 0 ≤ m) :
+    letI := fieldNum K sq
+    SupportsCSO2 (Obstacle2 sq A B pos12) fs →
+    closestPointsSmSm2 fs pos12 m = some .disjoint →
+    LocalSpec2 sq A B pos12 m .disjoint ∨
+      (gjkClosestPoints2 fs (some m) true (gjkStart2 fs pos12.t none Vs2.new)).1 = .noIntersection ⟨1, 0⟩ := by
+  letI := fieldNum K sq
+  intro hsup hr
+  unfold closestPointsSmSm2 closestPointsSmSmWithParams2 at hr
+  generalize hg : gjkClosestPoints2 fs (some m) true (gjkStart2 fs pos12.t none Vs2.new) = g at hr ⊢
+  obtain ⟨r, s'⟩ := g
+  dsimp only at hr ⊢
+  cases r with
+  | intersection => simp at hr
+  | closest p1 p2 d => simp at hr
+  | proximity d => simp at hr
+  | panic => simp at hr
+  | noIntersection d =>
+    rcases gjkClosestPoints2_cases fs (some m) true _ s' _ hg with h | h | h | ⟨s0, p0, o0, m0, hb⟩
+    · cases h
+    · cases h
+    · exact Or.inr h
+    · left
+      intro x y hx hy
+      have := gjkBody2_noIntersection_sound sq hs _ fs hsup m hm true s0 s' p0 o0 d m0 hb (x.sub (pos12.act y)) ⟨x, y, hx, hy, rfl⟩
+      unfold gapL2
+      simp only [V2.sub, V2.normSq, V2.dot] at this ⊢
+      linarith
+/-- in a set that contains `p` and, with every point `q`, the whole segment `[p, q]`, a point of minimum norm satisfies the
+variational inequality `p·(q − p) ≥ 0` (2-D) -/
+private theorem var_of_nearest2 (T : V2 K → Prop) (p q : V2 K)
+    (hseg : ∀ t : K, 0 ≤ t → t ≤ 1 → T ⟨p.x + t * (q.x - p.x), p.y + t * (q.y - p.y)⟩)
+    (hmin : ∀ x, T x → p.x * p.x + p.y * p.y ≤ x.x * x.x + x.y * x.y) :
+    0 ≤ p.x * (q.x - p.x) + p.y * (q.y - p.y) := by
+  by_contra hneg
+  push Not at hneg
+  set a := p.x * (q.x - p.x) + p.y * (q.y - p.y) with ha
+  set b := (q.x - p.x) * (q.x - p.x) + (q.y - p.y) * (q.y - p.y) with hb
+  have hb0 : 0 ≤ b := by rw [hb]; nlinarith [mul_self_nonneg (q.x - p.x), mul_self_nonneg (q.y - p.y)]
+  have hbpos : 0 < b := by
+    rcases lt_or_eq_of_le hb0 with h | h
+    · exact h
+    · exfalso
+      have h1 : q.x - p.x = 0 := by nlinarith [mul_self_nonneg (q.x - p.x), mul_self_nonneg (q.y - p.y)]
+      have h2 : q.y - p.y = 0 := by nlinarith [mul_self_nonneg (q.x - p.x), mul_self_nonneg (q.y - p.y)]
+      rw [ha, h1, h2] at hneg; simp at hneg
+  have key : ∀ t : K, 0 < t → t ≤ 1 → t * b ≤ -a → False := by
+    intro t ht0 ht1 htb
+    have h := hmin _ (hseg t ht0.le ht1)
+    simp only at h
+    have e : (p.x + t * (q.x - p.x)) * (p.x + t * (q.x - p.x)) + (p.y + t * (q.y - p.y)) * (p.y + t * (q.y - p.y))
+        = p.x * p.x + p.y * p.y + t * (2 * a + t * b) := by rw [ha, hb]; ring
+    rw [e] at h
+    have : t * (2 * a + t * b) < 0 := mul_neg_of_pos_of_neg ht0 (by linarith)
+    linarith
+  by_cases h1 : -a / b ≤ 1
+  · exact key (-a / b) (div_pos (by linarith) hbpos) h1 (by rw [div_mul_cancel₀ _ (ne_of_gt hbpos)])
+  · push Not at h1
+    have : b < -a := by
+      have := (lt_div_iff₀ hbpos).1 h1
+      linarith
+    exact key 1 one_pos le_rfl (by linarith)
+
+/-- **variational inequality of the 2-D reduction, all dimensions** (replaces `reduce2_variational_partial`): the point `p`
+returned by `project_origin_and_reduce` satisfies `p·(q − p) ≥ 0` for every point `q` of the hull of the live vertices — point,
+segment, and full triangle (the case that was missing: from optimality over the triangle and its convexity). This is the
+inequality behind every GJK lower bound (`min_bound = −dir·support` with `dir = −p/|p|`). -/
+theorem reduce2_variational (s s' : Vs2 K) (p q : V2 K) (hok : Vs2Ok s) :
+    letI := fieldNum K sq
+    s.projectOriginAndReduce = some (s', p) → Hull2 sq s q → 0 ≤ p.dot (q.sub p) := by
+  letI := fieldNum K sq
+  intro h hq
+  by_cases hd : s.dim ≤ 1
+  · exact reduce2_variational_partial sq s s' p q hd h hq
+  · have hmem := reduce2_mem sq s s' p hok h
+    have hnear := fun x hx => reduce2_nearest sq s s' p x hok h hx
+    have h2 : s.dim = 2 := by
+      rcases hq with ⟨e, _⟩ | ⟨e, _⟩ | ⟨e, _⟩ <;> omega
+    have hT : ∀ x, Hull2 sq s x ↔ (Triangle2.mk s.v0.point s.v1.point s.v2.point).Mem x := by
+      intro x
+      constructor
+      · rintro (⟨e, _⟩ | ⟨e, _⟩ | ⟨_, hm⟩)
+        · omega
+        · omega
+        · exact hm
+      · intro hm; exact Or.inr (Or.inr ⟨h2, hm⟩)
+    have := var_of_nearest2 (Hull2 sq s) p q ?_ ?_
+    · simpa [V2.dot, V2.sub] using this
+    · intro t ht0 ht1
+      rw [hT]
+      obtain ⟨u, v, hu, hv, huv, ep⟩ := (hT p).1 hmem
+      obtain ⟨u', v', hu', hv', huv', eq⟩ := (hT q).1 hq
+      refine ⟨u + t * (u' - u), v + t * (v' - v), by nlinarith, by nlinarith, by nlinarith, ?_⟩
+      rw [ep, eq]
+      simp only [V2.add, V2.sub, V2.smul, V2.mk.injEq]
+      constructor <;> ring
+    · intro x hx
+      have := hnear x hx
+      simp only [C05.dsq2, V2.zero] at this
+      nlinarith
 
 end C01
